@@ -15,8 +15,9 @@
      statement is [in_family_or_fuel].
    * Sections 10-13 (second wave) cover the Cardano and Monero addresses, the Khovratovich-Law / Icarus / Byron-legacy
      key classes and the wallet-level constructors; with them every census entry point of harness/props/C14.py has a
-     theorem about its model.  Where the faithful model leaves the family the full statement is refuted by a witness
-     and the guard under which it holds is proved ([kholaw_child_key_refuted] / [_partial]; finding C14-KHOLAW-OVERFLOW).
+     theorem about its model.  The one statement that was refuted while /repo let OverflowError escape from the
+     Khovratovich-Law child key (finding C14-KHOLAW-OVERFLOW, repaired by fix 71d2424) is now the full
+     [kholaw_child_key_no_escape]; its former witness is [kholaw_child_key_out_of_range_ex].
 
    PATTERN for a new entry point: no-escape lemma in Lemmas/NoEscape<Area>.v (see the header of Lemmas/NoEscape.v),
    theorem here by [exact], entry in MODEL_MAP of harness/props/C14.py. *)
@@ -709,44 +710,50 @@ Example kholaw_from_seed_hyps_ex :
 Proof. split; intros; [reflexivity|apply repeat_length]. Qed.
 Print Assumptions kholaw_from_seed_hyps_ex.
 
-(* ChildKey(int) on a private object.  FULL STATEMENT (false of the faithful model and of /repo):
-     forall hmac G ... d n i, in_family (child_key hmac G gadd gmul gbase g_is_zero penc pdec d n i) = true
-   Refuted for the Khovratovich-Law derivator: the 32-byte rendering of 8*zL + kL overflows for a parent with
-   kL >= 2^256 - 2^227, which FromPrivateKey / FromExtendedKey accept (finding C14-KHOLAW-OVERFLOW) *)
-Theorem kholaw_child_key_refuted : exists (hmac : list N -> list N -> list N) (n : node) (i : Z),
+(* ChildKey(int) on a private object: every parent key, every int, arbitrary HMAC.  (Until fix 71d2424 of /repo the
+   32-byte rendering of 8*zL + kL overflowed for a parent with kL >= 2^256 - 2^227, which FromPrivateKey / FromExtendedKey
+   accept: OverflowError, finding C14-KHOLAW-OVERFLOW; this statement was then refuted by the witness below and proved
+   only under kL + 2^227 <= 2^256.  The repaired code discards that child with Bip32KeyError, and so does the model.) *)
+Theorem kholaw_child_key_no_escape : forall (hmac512 : list N -> list N -> list N) (G : Type) gadd gmul gbase g_is_zero penc pdec n k i,
+  n_priv n = Some k ->
+  in_family (child_key hmac512 G gadd gmul gbase g_is_zero penc pdec (kh_derivator G gmul gbase g_is_zero penc) n i) = true.
+Proof. intros h G gadd gmul gbase z penc pdec n k i. exact (NoEscapeCardano.conf_child_key_family h G gadd gmul gbase z penc pdec n k i). Qed.
+Print Assumptions kholaw_child_key_no_escape.
+(* the former witness: parent ff*64 (an object the constructor accepts), HMAC ff*64 -- now a library error *)
+Example kholaw_child_key_out_of_range_ex : exists (hmac : list N -> list N -> list N) (n : node) (i : Z),
   node_from_priv unit (fun _ _ => tt) tt (fun _ => false) (fun _ => repeat 0%N 32) (repeat 255%N 64) (repeat 0%N 32) 0 = Ok n /\
   child_key hmac unit (fun _ _ => tt) (fun _ _ => tt) tt (fun _ => false) (fun _ => repeat 0%N 32) (fun _ => Some tt)
-    (kh_derivator unit (fun _ _ => tt) tt (fun _ => false) (fun _ => repeat 0%N 32)) n i = Err OverflowError.
+    (kh_derivator unit (fun _ _ => tt) tt (fun _ => false) (fun _ => repeat 0%N 32)) n i = Err (LibError Bip32KeyError).
 Proof.
   exists NoEscapeCardano.refute_hmac, NoEscapeCardano.refute_node, 0%Z.
-  split; [exact NoEscapeCardano.refute_node_constructed|exact NoEscapeCardano.kh_child_key_overflows].
+  split; [exact NoEscapeCardano.refute_node_constructed|exact NoEscapeCardano.kh_child_key_out_of_range].
 Qed.
-Print Assumptions kholaw_child_key_refuted.
-(* What holds: a parent whose kL leaves room for one more 8*zL (< 2^227).  HMAC returns bytes. *)
-Theorem kholaw_child_key_partial : forall (hmac512 : list N -> list N -> list N) (G : Type) gadd gmul gbase g_is_zero penc pdec n k i,
-  (forall k m, bytes_ok (hmac512 k m)) -> n_priv n = Some k -> (NoEscapeCardano.KL k + 2 ^ 227 <= 2 ^ 256)%N ->
-  in_family (child_key hmac512 G gadd gmul gbase g_is_zero penc pdec (kh_derivator G gmul gbase g_is_zero penc) n i) = true.
-Proof. intros h G gadd gmul gbase z penc pdec n k i. exact (NoEscapeCardano.kh_child_key_partial_family h G gadd gmul gbase z penc pdec n k i). Qed.
-Print Assumptions kholaw_child_key_partial.
-Example kholaw_child_key_partial_ex : (NoEscapeCardano.KL (repeat 0%N 31 ++ [64%N] ++ repeat 0%N 32) + 2 ^ 227 <= 2 ^ 256)%N.
+Print Assumptions kholaw_child_key_out_of_range_ex.
+(* What the former guard still gives, as a fact of its own: from a parent with kL + 2^227 <= 2^256 (HMAC returns bytes) the
+   child that is returned has kL' < kL + 2^227 -- the new refusal is not reached; with [kholaw_master_key_bound] below:
+   not by any key derived from a seed for 2^28 levels *)
+Theorem kholaw_child_key_growth : forall (hmac512 : list N -> list N -> list N) (G : Type) gmul gbase g_is_zero penc n k i,
+  (forall k m, bytes_ok (hmac512 k m)) -> (i < 2 ^ 32)%N -> (NoEscapeCardano.KL k + 2 ^ 227 <= 2 ^ 256)%N ->
+  match ckd_priv hmac512 G gmul gbase g_is_zero penc (kh_derivator G gmul gbase g_is_zero penc) n k i with
+  | inl n' => exists k', n_priv n' = Some k' /\ (NoEscapeCardano.KL k' < NoEscapeCardano.KL k + 2 ^ 227)%N
+  | inr e => exn_in_family e = true
+  end.
+Proof. intros h G gmul gbase z penc n k i H. exact (NoEscapeCardano.kh_ckd_priv_spec h G gmul gbase z penc H n k i). Qed.
+Print Assumptions kholaw_child_key_growth.
+Example kholaw_child_key_growth_ex : (NoEscapeCardano.KL (repeat 0%N 31 ++ [64%N] ++ repeat 0%N 32) + 2 ^ 227 <= 2 ^ 256)%N.
 Proof. vm_compute. discriminate. Qed.
-Print Assumptions kholaw_child_key_partial_ex.
-(* The derivator as the property demands it (Model/C14b.v kh_derivator_conformant: the child that does not fit 32 bytes is
-   discarded with Bip32KeyError; this is what fixes/C14-KHOLAW-OVERFLOW.diff makes the code do, and what the extracted
-   model of harness/props/C14.py runs): every private parent, every int, arbitrary HMAC -- and it is the code's
-   derivator wherever that one does not overflow *)
-Theorem kholaw_child_key_conformant_no_escape : forall (hmac512 : list N -> list N -> list N) (G : Type) gadd gmul gbase g_is_zero penc pdec n k i,
-  n_priv n = Some k ->
-  in_family (child_key hmac512 G gadd gmul gbase g_is_zero penc pdec (C14b.kh_derivator_conformant G gmul gbase g_is_zero penc) n i) = true.
-Proof. intros h G gadd gmul gbase z penc pdec n k i. exact (NoEscapeCardano.conf_child_key_family h G gadd gmul gbase z penc pdec n k i). Qed.
-Print Assumptions kholaw_child_key_conformant_no_escape.
-Theorem kholaw_new_left_conformant_agrees : forall zl kl, (zl8 zl + le_to_int kl < 2 ^ 256)%N ->
-  C14b.kh_new_left_conformant zl kl = kh_new_left zl kl.
-Proof. exact NoEscapeCardano.kh_new_left_conformant_agrees. Qed.
-Print Assumptions kholaw_new_left_conformant_agrees.
-Example kholaw_new_left_conformant_agrees_ex : (zl8 (repeat 255%N 32) + le_to_int (repeat 0%N 31 ++ [64%N]) < 2 ^ 256)%N.
-Proof. vm_compute. reflexivity. Qed.
-Print Assumptions kholaw_new_left_conformant_agrees_ex.
+Print Assumptions kholaw_child_key_growth_ex.
+Theorem kholaw_master_key_bound : forall (hmac512 hmac256 : list N -> list N -> list N) pbkdf2 (G : Type) gmul gbase g_is_zero penc fuel seed n,
+  (forall k m, length (hmac512 k m) = 64%nat) -> (forall k m, bytes_ok (hmac512 k m)) ->
+  (forall p s r n, length (pbkdf2 p s r n) = N.to_nat n) -> (forall p s r n, bytes_ok (pbkdf2 p s r n)) ->
+  (kh_from_seed hmac512 hmac256 G gmul gbase g_is_zero penc fuel seed = Ok n \/ ic_from_seed pbkdf2 G gmul gbase g_is_zero penc seed = Ok n) ->
+  exists k, n_priv n = Some k /\ (NoEscapeCardano.KL k < 2 ^ 255)%N.
+Proof.
+  intros h h2 pb G gmul gbase z penc fuel seed n H1 H2 H3 H4 [E|E].
+  - exact (NoEscapeCardano.kh_from_seed_bound h h2 G gmul gbase z penc H1 H2 fuel seed n E).
+  - exact (NoEscapeCardano.ic_from_seed_bound pb G gmul gbase z penc H3 H4 seed n E).
+Qed.
+Print Assumptions kholaw_master_key_bound.
 (* The Byron-legacy derivator reduces mod l and adds byte-wise: every private parent, every int, arbitrary HMAC *)
 Theorem byron_legacy_child_key_no_escape : forall (hmac512 : list N -> list N -> list N) (G : Type) gadd gmul gbase g_is_zero penc pdec n k i,
   n_priv n = Some k ->
@@ -754,54 +761,25 @@ Theorem byron_legacy_child_key_no_escape : forall (hmac512 : list N -> list N ->
 Proof. intros h G gadd gmul gbase z penc pdec n k i. exact (NoEscapeCardano.by_child_key_family h G gadd gmul gbase z penc pdec n k i). Qed.
 Print Assumptions byron_legacy_child_key_no_escape.
 
-(* <class>.FromSeedAndPath(seed, str) = FromSeed(seed).DerivePath(str).  The master key has kL < 2^255, every level adds
-   less than 2^227: room for 2^28 levels (a path string of more than 2^29 symbols would be needed to leave it) *)
-Theorem kholaw_from_seed_and_path_partial : forall (hmac512 hmac256 : list N -> list N -> list N) (G : Type) gadd gmul gbase g_is_zero
-    penc pdec fuel seed s,
-  (forall k m, length (hmac512 k m) = 64%nat) -> (forall k m, bytes_ok (hmac512 k m)) ->
-  (forall p, Bip32Path.parse s = Ok p -> (N.of_nat (length (Bip32Path.p_elems p)) <= 2 ^ 28)%N) ->
-  NoEscapeDeriv.in_family_or_fuel
-    (C14b.kh_from_seed_and_path_str hmac512 G gadd gmul gbase g_is_zero penc pdec (kh_derivator G gmul gbase g_is_zero penc)
-       (kh_from_seed hmac512 hmac256 G gmul gbase g_is_zero penc fuel) seed s) = true.
-Proof.
-  intros h h2 G gadd gmul gbase z penc pdec fuel seed s H1 H2 H3.
-  exact (NoEscapeCardano.kh_from_seed_and_path_str_fof h h2 G gadd gmul gbase z penc pdec H1 H2 fuel seed s H3).
-Qed.
-Print Assumptions kholaw_from_seed_and_path_partial.
-Theorem icarus_from_seed_and_path_partial : forall (hmac512 : list N -> list N -> list N) pbkdf2 (G : Type) gadd gmul gbase g_is_zero
-    penc pdec seed s,
-  (forall k m, bytes_ok (hmac512 k m)) ->
-  (forall p s r n, length (pbkdf2 p s r n) = N.to_nat n) -> (forall p s r n, bytes_ok (pbkdf2 p s r n)) ->
-  (forall p, Bip32Path.parse s = Ok p -> (N.of_nat (length (Bip32Path.p_elems p)) <= 2 ^ 28)%N) ->
-  in_family
-    (C14b.kh_from_seed_and_path_str hmac512 G gadd gmul gbase g_is_zero penc pdec (kh_derivator G gmul gbase g_is_zero penc)
-       (ic_from_seed pbkdf2 G gmul gbase g_is_zero penc) seed s) = true.
-Proof.
-  intros h pb G gadd gmul gbase z penc pdec seed s H1 H2 H3 H4.
-  exact (NoEscapeCardano.ic_from_seed_and_path_str_family h pb G gadd gmul gbase z penc pdec H1 seed s H2 H3 H4).
-Qed.
-Print Assumptions icarus_from_seed_and_path_partial.
-(* ... with the derivator the property demands: paths of any length (Bip32KholawEd25519 / CardanoIcarusBip32 / Cip1852) *)
-Theorem kholaw_from_seed_and_path_conformant_no_escape : forall (hmac512 hmac256 : list N -> list N -> list N) pbkdf2 (G : Type)
+(* <class>.FromSeedAndPath(seed, str) = FromSeed(seed).DerivePath(str): paths of any length (Bip32KholawEd25519 /
+   CardanoIcarusBip32 / Cip1852).  The 2^28-element path bound of the statements this replaces was no fuel artefact but the
+   room a master key (kL < 2^255) has before 8*zL + kL can leave 32 bytes; with the repaired derivator it is not needed.
+   Hypotheses: the digest sizes only (master key: kl[31]). *)
+Theorem kholaw_from_seed_and_path_no_escape : forall (hmac512 hmac256 : list N -> list N -> list N) pbkdf2 (G : Type)
     gadd gmul gbase g_is_zero penc pdec fuel seed s,
   (forall k m, length (hmac512 k m) = 64%nat) -> (forall p s r n, length (pbkdf2 p s r n) = N.to_nat n) ->
   NoEscapeDeriv.in_family_or_fuel
-    (C14b.kh_from_seed_and_path_str hmac512 G gadd gmul gbase g_is_zero penc pdec (C14b.kh_derivator_conformant G gmul gbase g_is_zero penc)
+    (C14b.kh_from_seed_and_path_str hmac512 G gadd gmul gbase g_is_zero penc pdec (kh_derivator G gmul gbase g_is_zero penc)
        (kh_from_seed hmac512 hmac256 G gmul gbase g_is_zero penc fuel) seed s) = true /\
   NoEscapeDeriv.in_family_or_fuel
-    (C14b.kh_from_seed_and_path_str hmac512 G gadd gmul gbase g_is_zero penc pdec (C14b.kh_derivator_conformant G gmul gbase g_is_zero penc)
+    (C14b.kh_from_seed_and_path_str hmac512 G gadd gmul gbase g_is_zero penc pdec (kh_derivator G gmul gbase g_is_zero penc)
        (ic_from_seed pbkdf2 G gmul gbase g_is_zero penc) seed s) = true.
 Proof.
   intros h h2 pb G gadd gmul gbase z penc pdec fuel seed s H1 H2.
   split; [exact (NoEscapeCardano.conf_kh_from_seed_and_path_str_fof h h2 G gadd gmul gbase z penc pdec fuel seed s H1)|
           exact (NoEscapeCardano.conf_ic_from_seed_and_path_str_family h pb G gadd gmul gbase z penc pdec seed s H2)].
 Qed.
-Print Assumptions kholaw_from_seed_and_path_conformant_no_escape.
-(* the path premise on a non-trivial path *)
-Example kholaw_path_premise_ex : forall p, Bip32Path.parse [109; 47; 52; 52; 39; 47; 49]%N = Ok p ->
-  (N.of_nat (length (Bip32Path.p_elems p)) <= 2 ^ 28)%N.
-Proof. intros p H. vm_compute in H. inversion H; subst. vm_compute. discriminate. Qed.
-Print Assumptions kholaw_path_premise_ex.
+Print Assumptions kholaw_from_seed_and_path_no_escape.
 (* CardanoByronLegacyBip32.FromSeedAndPath(seed, str): paths of any length *)
 Theorem byron_legacy_from_seed_and_path_no_escape : forall (hmac512 : list N -> list N -> list N) (sha512 : list N -> list N) (G : Type)
     gadd gmul gbase g_is_zero penc pdec fuel seed s,
